@@ -15,12 +15,14 @@ def bindings_for(lp, tier, seed, want=2):
     """Concrete readings of the abstract labels/rewards; rotated by the seed in the quick tier."""
     if lp == "ts":
         pool = [dict(labelmap="int", unit=1, dtype="int"), dict(labelmap="str", unit=1, dtype="float"),
-                dict(labelmap="float", unit=1, dtype="float", container="list")]
+                dict(labelmap="float", unit=1, dtype="float", container="list"), dict(labelmap="int", unit=1, dtype="bool")]
     else:
         pool = [dict(labelmap="int", unit=1, dtype="float"), dict(labelmap="str", unit="1/4", dtype="float"),
                 dict(labelmap="float", unit=1, dtype="int", container="list"),
                 dict(labelmap="int", unit="1/4", dtype="float", container="series"),
-                dict(labelmap="str", unit=1, dtype="int")]
+                dict(labelmap="str", unit=1, dtype="int"),
+                dict(labelmap="int", unit=80, dtype="uint8"),          # 0, 80, 240: two rows of one arm exceed the dtype's range
+                dict(labelmap="str", unit=10000, dtype="int16")]
     if tier == "thorough":
         return pool
     k = seed % len(pool)
@@ -90,6 +92,12 @@ def c01(report):
     report.nontrivial_rule = ("spec edges (fit/partial_fit/add_arm/remove_arm/queries) replayed on a real MAB; "
                               "non-trivial = distinct (policy, call path) whose batch omits an arm or follows an arm change")
     jobs = cf_jobs(CF_LPS, report.tier, report.seed, eps=None, checks=("state", "result"))
+    for job in jobs:        # rewards in narrow numpy dtypes (uint8, int16, bool): per-arm sums must not wrap
+        lp = job["consts"]["LP"]
+        if job["mode"] == "bfs" and lp != "random":
+            narrow = [dict(labelmap="int", unit=1, dtype="bool")] if lp == "ts" else \
+                [dict(labelmap="int", unit=80, dtype="uint8"), dict(labelmap="str", unit=10000, dtype="int16")][report.seed % 2:][:1]
+            job["bindings"] = job["bindings"] + narrow
     jobs += cf_jobs(["eg"], report.tier, report.seed, bfs=False, tag="-eps", eps=0.5, checks=("state", "result"))
     ecf.run_jobs(report, jobs, either(by_clause("state.acc", "state.total", "state.expv", "result.sampler"),
                                       by_clause("call.exception", ops={"fit", "partial_fit", "add_arm", "remove_arm",
@@ -133,7 +141,13 @@ def c07(report):
     negatives(report, [("eg", "FitKeepsSums", "Prop_C07_FitIsFresh", None), ("ucb1", "UcbTotalAccumulates", "Prop_C07_FitIsFresh", None),
                        ("ts", "FitKeepsStatus", "Prop_C07_FitIsFresh", dict(Ops=FULL_OPS | {"warm_start"}))])
     ljobs = life_jobs(report.tier, report.seed, FULL_OPS | {"warm_start"}, tag="-c07", checks=("state", "fresh"),
-                      depth=None if report.tier == "thorough" else 3)
+                      depth=None if report.tier == "thorough" else 3, over=dict(WideOffsets={100}))
+    # single-feature data with pandas Series contexts, refit on data with two feature columns and back
+    sjobs = life_jobs(report.tier, report.seed + 3, {"fit", "partial_fit", "predict", "predict_expectations"}, tag="-c07series",
+                      checks=("state", "fresh"), depth=4, over=dict(WideOffsets={100}, Offsets={0}, QueryRows={1, 3}), sims=False,
+                      only=lambda c: c[1] in ("radius", "knearest", "tree", "lsh") or c[0].startswith("lin-"),
+                      extra=dict(dims=1, container="series1"))
+    ecf.defer(sjobs, either(by_clause("fresh"), by_clause("state.", "call.exception")))
     ecf.defer(ljobs, either(by_clause("fresh"), by_clause("state.", "call.exception", ops={"fit"})))
     ecf.flush(report)
     ecf.life_negative(report, "FitKeepsRows", "Prop_C07_FitIsFresh")
@@ -202,7 +216,7 @@ def c13(report):
     report.nontrivial_rule = "warm_start edges (cold arms present) replayed; status, copied state and cold_arms compared"
     ops = {"fit", "partial_fit", "add_arm", "remove_arm", "warm_start", "predict_expectations"}
     jobs = []
-    feats = ["std", "dup", "zero", "far"] if report.tier == "thorough" else ["std", "dup"] + ([["zero", "far"][report.seed % 4 // 2]] if report.seed % 2 == 0 else [])
+    feats = ["std", "dup", "zero", "far"] if report.tier == "thorough" else ["std", "dup", "far"] + (["zero"] if report.seed % 3 == 0 else [])
     for feat in feats:
         over = dict(Feat=feat, QueryRows={0}, Labels={"a", "b", "c", "d"}, InitArms=["a", "b", "c"], MaxBatch=1,
                     Quantiles={(0, 1), (1, 4), (1, 2), (1, 1)}, Rewards={1, 3})
@@ -244,7 +258,7 @@ def c13(report):
 def c14(report):
     report.nontrivial_rule = "Thompson edges with a binarizer installed (construction or add_arm); Beta parameters compared"
     jobs = []
-    bins = ["thr", "flip", "ge2"] if report.tier == "thorough" else [["thr", "flip", "ge2"][report.seed % 3], "thr"]
+    bins = ["thr", "flip", "ge2"] if report.tier == "thorough" else ["flip", ["thr", "ge2"][report.seed % 2]]
     for b in dict.fromkeys(bins):
         rewards = {0, 1} if b == "flip" else ({0, 2, 3} if report.tier == "thorough" else {2, 3})
         over = dict(InitBin=b, Rewards=rewards, NewBins={"keep", "flip" if b != "flip" else "thr"}, QueryRows={0})
@@ -361,7 +375,8 @@ def c03(report):
     _parallel_exhaustive(report, nps)
     lps = ["eg", "ucb1", "ts", "softmax", "lin-ucb", "lin-ts"] if report.tier == "thorough" else \
         ["eg", "ucb1", ["ts", "softmax", "pop"][report.seed % 3], "lin-ucb"]
-    jobs = enb.jobs_for(nps, lps, report.tier, report.seed, nb_variants(report.tier, report.seed, nps))
+    jobs = enb.jobs_for(nps, lps, report.tier, report.seed, nb_variants(report.tier, report.seed, nps, want=9),
+                        n=40 if report.tier == "thorough" else 8)
     enb.run_jobs(report, jobs, nb_filter(nps, *NB_TRACE))
     _nb_counts(report)
     report.assumptions += ["contexts are integer grid points and radii rationals so that boundary membership is exact",
@@ -498,6 +513,12 @@ def c02(report):
     jobs = lin_jobs(report.tier, report.seed)
     ecf.run_jobs(report, jobs, by_clause("state.A", "state.Xty", "state.beta", "result.linear", "result.linalg",
                                          "result.manyrows", "shape.rows", "call.exception"))
+    # beyond the exact model: many features, real-valued data, single-row online updates, nearly constant scaled columns
+    from harness import linwide
+    wide_findings, wide_counters = [], {}
+    linwide.run(report.seed, report.tier, wide_findings, wide_counters)
+    report.findings += wide_findings
+    report.count("lin.wide_cases", wide_counters.get("wide_cases", 0))
     items = [("RidgeInitAinv", "Inv_C02_Unobserved"), ("XtyOverwritten", "Inv_C02_NormalEq"), ("FitKeepsA", "Prop_C07_FitIsFresh")]
     for dev, expect in (items if report.tier == "thorough" else items[: 1 + report.seed % 2]):
         ecf.lin_negative(report, dev, expect)
@@ -613,7 +634,7 @@ def life_jobs(tier, seed, ops, checks=None, rejects=False, depth=None, over=None
     jobs = []
     for i, (lp, np_) in enumerate(combos(tier, seed, only)):
         bkw = dict(lp=lp, np_=np_, labelmap=["int", "str", "float"][(i + seed) % 3],
-                   container=["ndarray", "list", "pandas"][(i // 3 + seed) % 3],
+                   container=["ndarray", "list", "pandas", "int"][(i // 3 + seed) % 4],
                    n_jobs=[1, 2, 3][(i + seed) % 3] if np_ else 1, backend="threading" if np_ else None)
         bkw.update(extra or {})
         if np_ == "tree" and lp == "ts":
